@@ -38,7 +38,7 @@ const rootPath = "github.com/veraison/psatoken"
 
 func loadWorld(repo, verifDir string) (*World, error) {
 	cfg := &packages.Config{
-		Mode:       packages.LoadAllSyntax,
+		Mode:       packages.LoadSyntax | packages.NeedDeps | packages.NeedImports,
 		Dir:        repo,
 		BuildFlags: []string{"-tags=verif"},
 		Env:        append(os.Environ(), "GOFLAGS=-mod=mod", "GOPROXY=off", "GOSUMDB=off", "GOTOOLCHAIN=local"),
@@ -59,7 +59,7 @@ func loadWorld(repo, verifDir string) (*World, error) {
 	if nerr > 0 {
 		return nil, fmt.Errorf("repository does not type-check (%d errors)", nerr)
 	}
-	prog, spkgs := ssautil.AllPackages(pkgs, ssa.InstantiateGenerics|ssa.GlobalDebug)
+	prog, spkgs := ssautil.Packages(pkgs, ssa.InstantiateGenerics|ssa.GlobalDebug)
 	prog.Build()
 	w := &World{
 		fset: pkgs[0].Fset, prog: prog, pkgs: pkgs, spkgs: map[string]*ssa.Package{},
